@@ -654,9 +654,9 @@ func ownRegistry() (restore func()) {
 	return func() {
 		client.ResetRegisteredImpls()
 		client.Register(gclient.Type, gclient.New) // as the init function of client/gnmi does
-		client.RegisterTest(implType, scriptCtor)
-		client.RegisterTest(decoyType, decoyCtor)
+		registerScripted()
 		client.RegisterTest(realTrapType, realTrapCtor)
+		client.RegisterTest(realConnType, realConnCtor)
 	}
 }
 
